@@ -405,6 +405,16 @@ func (c *Ctx) ensures(f *ssa.Function, env Env, chk *GCheck, depth int) (bool, [
 		return false, []string{"depth bound"}
 	}
 	c.gmemo[key] = 2
+	// a function that never succeeds (an error constructor) is not a check of anything
+	canSucceed := false
+	for _, r := range returnsOf(f) {
+		if maySucceed(r) {
+			canSucceed = true
+		}
+	}
+	if !canSucceed {
+		return false, []string{"the function has no accepting exit"}
+	}
 	ok, w, _ := c.guard(f, env, chk, nil, depth)
 	if ok {
 		c.gmemo[key] = 1
@@ -426,10 +436,13 @@ func (c *Ctx) ensuresFalse(f *ssa.Function, env Env, chk *GCheck, depth int) boo
 	}
 	c.gmemo[key] = 2
 	n := 0
-	falseVals := map[ssa.Value]bool{}
+	falseVals, okVals := map[ssa.Value]bool{}, map[ssa.Value]bool{}
 	for _, st := range c.sites(f, env, chk, depth) {
 		if st.falseVal != nil {
 			falseVals[st.falseVal] = true
+		}
+		if st.okVal != nil {
+			okVals[st.okVal] = true
 		}
 	}
 	ok, _, sites := c.guard(f, env, chk, func(in ssa.Instruction) bool {
@@ -438,7 +451,16 @@ func (c *Ctx) ensuresFalse(f *ssa.Function, env Env, chk *GCheck, depth int) boo
 			return false
 		}
 		n++
-		if falseVals[returnedValue(ret, 0)] {
+		// the verdict handed back is the test itself (false = passed), or its negation (`return !ok`)
+		rv, flip := returnedValue(ret, 0), false
+		for d := 0; d < 3; d++ {
+			u, isU := rv.(*ssa.UnOp)
+			if !isU || u.Op != token.NOT {
+				break
+			}
+			rv, flip = u.X, !flip
+		}
+		if (!flip && falseVals[rv]) || (flip && okVals[rv]) {
 			return false
 		}
 		if k, isK := returnedValue(ret, 0).(*ssa.Const); isK && k.Value != nil && constant.BoolVal(k.Value) {
